@@ -61,8 +61,13 @@ func genC12(seed uint64, index int, tier string) *run.Plan {
 	for c := 0; c < callers; c++ {
 		n := 1 + g.Intn(6)
 		for i := 0; i < n; i++ {
-			kind := []string{"req", "req", "req", "gettime", "mcinfo", "isok"}[g.Intn(6)]
-			p.Ops = append(p.Ops, run.Op{Kind: kind, Caller: c, AtMs: g.Intn(span + 1), A: []int{0, 1, 5, 32, 200, 253, 254, 255, 1000, 70000}[g.Intn(10)]})
+			kind := []string{"req", "req", "req", "gettime", "mcinfo", "isok", "waitseq", "waitblock"}[g.Intn(8)]
+			op := run.Op{Kind: kind, Caller: c, AtMs: g.Intn(span + 1), A: []int{0, 1, 5, 32, 200, 253, 254, 255, 1000, 70000}[g.Intn(10)]}
+			if kind == "waitseq" || kind == "waitblock" {
+				op.A = 98 + g.Intn(4)                      // target seqno around the server's head (100)
+				op.B = []int{1, 100, 700, 3000}[g.Intn(4)] // server-side wait in ms
+			}
+			p.Ops = append(p.Ops, op)
 		}
 	}
 	if g.Intn(3) == 0 {
@@ -215,7 +220,8 @@ func execC12(t *testing.T, w *core.World, p *run.Plan, r *run.Result) {
 	setPCT(w, p)
 	dialsAtReady := h.Dials
 	if dialsAtReady != nconn {
-		w.Violate("harness-selfcheck", "harness-selfcheck|dials", fmt.Sprintf("expected %d dials at setup, saw %d", nconn, dialsAtReady))
+		// a stall during the setup can outlast the 10 s silence timer of a connection that is already up
+		w.Probe("reconnect-during-setup")
 	}
 
 	// ---- workload ----
@@ -262,6 +268,12 @@ func execC12(t *testing.T, w *core.World, p *run.Plan, r *run.Result) {
 			seqno = res.Last.Seqno
 		case "isok":
 			ok = client.IsOK()
+		case "waitseq":
+			err = client.WaitMasterchainSeqno(context.Background(), uint32(o.op.A), uint32(o.op.B))
+		case "waitblock":
+			var res liteclient.LiteServerBlockHeaderC
+			res, err = client.WaitMasterchainBlock(context.Background(), uint32(o.op.A), uint32(o.op.B))
+			seqno = res.Id.Seqno
 		}
 		mu.Lock()
 		o.done, o.end, o.err, o.resp, o.isok, o.now, o.seqno = true, w.Now(), err, resp, ok, now, seqno
@@ -546,13 +558,21 @@ func execC12(t *testing.T, w *core.World, p *run.Plan, r *run.Result) {
 				if o.seqno != 100 {
 					w.Violate("C12.S4", "C12.S4|mcinfo", fmt.Sprintf("%s decoded seqno=%d, server head is 100", name, o.seqno))
 				}
+			case "waitseq":
+				if o.op.A > 100 {
+					w.Violate("C12.S4", "C12.S4|waitseq", fmt.Sprintf("%s for seqno %d returned nil although the server's head never passed 100", name, o.op.A))
+				}
+			case "waitblock":
+				if o.op.A > 100 || int(o.seqno) != o.op.A {
+					w.Violate("C12.S4", "C12.S4|waitblock", fmt.Sprintf("%s for seqno %d returned header of block %d (server head 100)", name, o.op.A, o.seqno))
+				}
 			}
 			if dur > timeout && !stalled && !(writeStall && blockedDuring(o.start, o.end)) {
 				w.Violate("C12.S2", "C12.S2|late-success", fmt.Sprintf("%s returned success after %v > timeout %v", name, dur, timeout))
 			}
 		} else {
 			es := o.err.Error()
-			isTimeout := strings.Contains(es, "timeout") || strings.Contains(es, "deadline")
+			isTimeout := (strings.Contains(es, "request timeout") || strings.Contains(es, "deadline exceeded")) && !strings.Contains(es, "error code:")
 			if isTimeout {
 				toCount++
 				if dur < timeout {
@@ -568,7 +588,10 @@ func execC12(t *testing.T, w *core.World, p *run.Plan, r *run.Result) {
 				}
 				w.Violate("C12.S2", cls, fmt.Sprintf("%s returned %q after %v, later than its timeout %v", name, es, dur, timeout))
 			}
-			if faultFree {
+			// a wait for a block the server never produces ends with the server's 652 or, if the server-side wait
+			// is longer than the client's timeout, with the client's own timeout: both are the right answer
+			serverSaidNo := (o.op.Kind == "waitseq" || o.op.Kind == "waitblock") && o.op.A > 100
+			if faultFree && !serverSaidNo {
 				w.Violate("C12.F", "C12.F|error|faultfree", fmt.Sprintf("%s failed in a fault-free run: %v", name, o.err))
 			}
 			if o.caller == 99 && judgeL1 {
